@@ -66,7 +66,7 @@ def run_case(case):
     r = dw.build(config, history, orc.hash_function(0, 1), 1)
     sa = r.sa
     fails = orc.structure_failures(sa, key)
-    if abs(sa.margin - config["margin"]) > 0:
+    if not (abs(sa.margin - config["margin"]) <= 0):
         fails.append(fail("margin_parameter", "margin attribute %r differs from constructor argument %r" % (sa.margin, config["margin"]), key))
     if r.snaps:
         before, after, bmax = r.snaps[-1]
